@@ -309,3 +309,19 @@ pub fn classify_pixels(polys: &[Vec<P>], w: i32, h: i32, cap: f64) -> Vec<(i32, 
     }
     out
 }
+
+/// Pixels that certainly lie outside the exact shape of `p` under `xf`: winding number outside by the path's
+/// rule and the whole pixel more than 1 px from the f64 outline (the margin of C08's statement).  Independent of
+/// the library's own rendering of the path.
+pub fn certainly_outside(p: &PathSpec, xf: &Xf, w: i32, h: i32) -> Vec<bool> {
+    const MARGIN: f64 = 1.0 + 0.70711;
+    let subs = walk(p, xf);
+    let polys = fine(&subs, 0.08);
+    let cls = classify_pixels(&polys, w, h, MARGIN + 0.5);
+    cls.iter()
+        .map(|(wn, d)| {
+            let inside = if p.evenodd { wn & 1 != 0 } else { *wn != 0 };
+            !inside && *d > MARGIN
+        })
+        .collect()
+}
